@@ -75,12 +75,18 @@ class TunnelEndpoint(Endpoint):
         """
         Ensure packets are only delivered if they follow they are properly encrypted.
         """
-        for listener in self.endpoint._listeners:  # noqa: SLF001
+        endpoint = self.endpoint
+        while getattr(endpoint, "interfaces", None):
+            # A DispatcherEndpoint registers every listener with all of its interfaces: deliver through one of them.
+            endpoint = next(iter(endpoint.interfaces.values()))
+        # Overlays listen for their own prefix (see Endpoint.notify_listeners), others listen for everything.
+        listeners = endpoint._prefix_map.get(packet[1][:endpoint.prefixlen], endpoint._listeners)  # noqa: SLF001
+        for listener in listeners:
             # Anonymized communities should ignore traffic received from the socket
             # Non-anonymized communities should ignore traffic received from the TunnelCommunity
             if getattr(listener, "anonymize", False) != from_tunnel:
                 continue
-            self.endpoint._deliver_later(listener, packet)  # noqa: SLF001
+            endpoint._deliver_later(listener, packet)  # noqa: SLF001
 
     def add_listener(self, listener: EndpointListener) -> None:
         """
